@@ -100,6 +100,15 @@ def write_layout(root, cfg, ok, fmt, present_ext, rng, before, after):
     os.makedirs(d, exist_ok=True)
     with open(os.path.join(d, "zz-unlisted." + present_ext), "w") as f:
         f.write("}}} poisoned {{{")
+    # a locales-dir with `..` or an absolute one: a decoy where the path would lead if those components were dropped
+    inner = os.path.join(root, *[c_ for c_ in ok["dir"].split("/") if c_ not in ("..", ".", "")])
+    if os.path.normpath(inner) != os.path.normpath(d):
+        for ns in (list(dict.fromkeys(ok["namespaces"])) if ok["namespaces"] else [None]):
+            for l in ok["locales"]:
+                base = os.path.join(inner, l) if ns is None else os.path.join(inner, l, ns)
+                os.makedirs(os.path.dirname(base), exist_ok=True)
+                with open(base + "." + present_ext, "w") as f:
+                    f.write({"json": json.dumps({"marker": "DECOY-inner"}), "json5": "{marker: 'DECOY-inner'}", "yaml": "marker: \"DECOY-inner\"\n"}[fmt])
     if ok["dir"] not in ("locales", "./locales"):
         os.makedirs(os.path.join(root, "locales"), exist_ok=True)
         for l in ok["locales"]:
@@ -129,8 +138,8 @@ def configs(rng, tier):
             out.append({"default": "en", "locales": listed, "namespaces": None, "inherits": inh})
         for bad in ({"en": "fr"}, {"xx": "en"}, {"en": "en"}, {"xx": "yy"}):
             out.append({"default": "en", "locales": listed, "namespaces": None, "inherits": bad})
-    for c in out:
-        c["locales_dir"] = gen.pick(rng, [None, None, "i18n", "./tr", "a/b/c", "locales"])
+    for ci, c in enumerate(out):
+        c["locales_dir"] = gen.pick(rng, [None, None, "i18n", "./tr", "a/b/c", "locales", "../out%d/locales" % ci, "./a/../b", "ABS"])
         c["translations_path"] = gen.pick(rng, [None, None, "i18n/{locale}.json"])
         c["unknown_fields"] = gen.pick(rng, [None, None, {"foo": "bar"}, {"extra-field": [1, 2]}, {"Default": "zz"}])
     if tier == "quick":
@@ -148,9 +157,11 @@ def run(tier, seed, replay=None):
     by_fmt = {"json": [], "json5": [], "yaml": []}
     for i, cfg in enumerate(cfgs):
         fmt = ["json", "json", "yaml", "json5"][i % 4]
+        d = os.path.join(root, str(i))
+        if cfg.get("locales_dir") == "ABS":
+            cfg["locales_dir"] = os.path.join(root, "abs%d" % i, "tr")       # an absolute locales-dir outside the crate
         kind, ok = model_config(cfg)
         ext = gen.pick(rng, EXTS[fmt])
-        d = os.path.join(root, str(i))
         good = write_layout(d, cfg, ok if kind == "ok" else None, fmt, ext, rng, gen.pick(rng, BEFORE), gen.pick(rng, AFTER))
         by_fmt[fmt].append((i, d, cfg, kind, ok, ext, good))
     strace_jobs = []
